@@ -11,6 +11,7 @@
 pub mod std_io {
     #[allow(unused_imports)] use vstd::prelude::*;
     #[verifier::external_body]
+    #[derive(Debug)]
     pub struct Error { _p: u8 }
     pub type Result<T> = core::result::Result<T, Error>;
     pub trait Write {
